@@ -8,7 +8,7 @@ VH_* environment variables pin shapes only (categories kind, tuple sizes, which 
 import sys
 
 from vcommon import Run
-from xhair import Ob, run_obligations, replay_file
+from xhair import Ob, run_obligations, run_probes, replay_file
 
 H = 'C12_roundtrip.py'
 
@@ -101,7 +101,8 @@ def main():
              'the real json module; jsonreal_* run the real module on every path with strings <= 1 char over a 2-letter '
              'alphabet (quote, backslash, non-ASCII, newline), 8 special floats, small ints and 2**70',
         outside='stability of ModelHash across processes / PYTHONHASHSEED / construction order (sha256 over a JSON '
-                'string is not a solver problem; observed only by running two interpreters); the generic model code '
+                'string is not a solver problem; a concrete companion probe runs one multi-compartment model in four '
+                'interpreters with different hash seeds, nothing more is claimed); the generic model code '
                 'round trip (parser); Expr-bearing components (Assignment, Compartment, CompartmentalSystem, '
                 'distributions, RandomVariables, Statements, Model: symengine/sympy objects cannot be symbolic); '
                 'DataFrame-valued fields; equality is the classes\' own __eq__ (e.g. DataInfo.__eq__ ignores path, '
@@ -120,6 +121,9 @@ def main():
         'reproduces its fields (SimulationStep: n >= 1; LogEntry: any)',
     ]
     run_obligations(run, obs)
+    # concrete companion (sampling, not a solver verdict): the key does not depend on the interpreter process
+    run_probes(run, [(Ob('hash_across_processes', 'C12_hashprobe.py', 'hash_across_processes', env={}),
+                      'hash_across_processes(4)')])
     for o in obs[:12]:
         run.sample(dict(obligation=o.name, harness=o.file, func=o.func, env=o.env))
     run.finish(coverage=dict(explanation=(
